@@ -286,6 +286,19 @@ Theorem C15_tabor_single_mode_nonvacuous : exists t st w tr st' ms,
 Proof. exact tabor_single_update_nonvacuous. Qed.
 Print Assumptions C15_tabor_single_mode_nonvacuous.
 
+(* a sufficient condition visible in the FIRST compilation alone (any mode): it raised no warning and took only DSkip
+   decisions after the root decision (every sequence table had a valid length).  Then the compilation of every updated
+   program (within the model bound counts_ok) exists, takes the same decisions, raises no warning, and - when the
+   parser shares the same tables - its tables are exactly the updated tables.  Only the sharing hypothesis is left. *)
+Theorem C15_tabor_compile_skip_only : forall us f mode mn mx t st b tr,
+  tabor_compile f mode mn mx t = Ok (st, false, DRoot b :: tr) -> forallb is_skip tr = true ->
+  counts_ok (update us t) = true ->
+  exists st2, tabor_compile f mode mn mx (update us t) = Ok (st2, false, DRoot b :: tr) /\
+              forall st' ms, map snd (t_adv st2) = map snd (t_adv st) -> update_tabor us st = (st', ms) ->
+                             tab_view st' = tab_view st2.
+Proof. exact tabor_compile_skip_only. Qed.
+Print Assumptions C15_tabor_compile_skip_only.
+
 (* an input-level sufficient condition for "the compilation of the updated tables takes the same decisions": when
    every sequence table already has a valid length, prepare_program_for_advanced_sequence_mode takes no
    count-dependent decision (all DSkip) for the tables and for every update of them *)
